@@ -101,7 +101,7 @@ def run(R):
         sws = [bb for bb in sorted(tf.live_blocks()) if tf.term(bb)['k'] == 'switch']
         okg = False
         for s in sws:
-            o = tf.origin(tf.term(s)['on'])
+            o = mirlib.norm_cmp(tf.origin(tf.term(s)['on']))
             if o[0] == 'bin' and o[1] == 'Gt' and const_val(o[3]) == sp['max_value'] and is_call(strip_refs(o[2]), name='into'):
                 edges = tf.switch_edges(s)
                 true_t = [tgt for tgt, vals in edges.items() if vals == ['else'] or (0 not in vals and 'else' not in vals)]
